@@ -106,6 +106,7 @@ PROPS["C19"] = {
         {"pkg": "types", "run": "^TestC19ChainID$", "quick": {"checks": 2000, "shards": 2, "timeout": 600}, "thorough": {"checks": 40000, "shards": 4, "timeout": 1500}},
         {"pkg": "types", "run": "^TestC19Regression$", "all": {"shards": 1, "timeout": 300}},
         {"pkg": "account/key", "run": "^TestC19TxSignDigest$", "quick": {"checks": 600, "shards": 3, "timeout": 600}, "thorough": {"checks": 10000, "shards": 6, "timeout": 1500}},
+        {"pkg": "verifx/tree", "run": "^TestC19HardforkRestarts$", "quick": {"checks": 60, "shards": 4, "timeout": 600}, "thorough": {"checks": 1500, "shards": 8, "timeout": 1500}},
         {"pkg": "config", "run": "^TestC19HardforkVersion$", "quick": {"checks": 3000, "shards": 2, "timeout": 600}, "thorough": {"checks": 60000, "shards": 4, "timeout": 1500}},
     ],
 }
@@ -486,3 +487,11 @@ _amend("C16", "level_text", "Part A:", "Part A (hard states are persisted on the
 
 _amend("C05", "level_text", "Exhaustive unit: every arrival permutation of every tree shape with up to 4 blocks (quick) / 5 (thorough).",
        "Exhaustive unit: every arrival order of fixed tree shapes (linear, two branches, side block, overtaking side branches, three tips) with up to 4 blocks (quick) / 6 (thorough), each shape also with a wrong state root in the first or last block (quick) / in every block in turn (thorough); besides the invariants the best block must never be an invalid block or built on one.")
+
+_amend("C19", "level_text", "and every stored form must read back equal.",
+       "and every stored form must read back equal. Restart unit: a real node makes 0-14 blocks under a hardfork table and is then started again 2-7 times with tables drawn (with repetition) from a pool (the original, tables that only move future forks, tables that move or add a fork at or below the best block) through the real start-up path on its stores; accepted only if every existing height keeps its version, a refusal leaves no trace (refused again later, the original still accepted), the chain opens intact afterwards.")
+_amend("C09", "level_text", "foreign/other-slot signers and timestamp shifts.",
+       "foreign/other-slot signers and timestamp shifts; and child-before-parent deliveries to the real chain service, where a child signed by the wrong key or altered after signing waits as an orphan and must not be on the main chain once its legitimate parent has arrived.")
+_amend("C14", "level_text", "Generated hostile transactions:",
+       "Generated hostile transactions (in a sixth of the private-network cases a history of 2-8 enterprise configuration calls whose address arguments include names and special accounts, so that what one call stores is what the next one reads):")
+_amend("C11", "level_note", "", "") if False else None
